@@ -190,7 +190,19 @@ fn gen_pattern(t: &mut Tape, base: &[u8], all_paths: &[Vec<u8>], c: &mut Case) -
         }
         5 => {
             c.label("pat-starstar");
-            match t.weighted(&[3, 3, 3, 2, 2]) {
+            match t.weighted(&[3, 3, 3, 2, 2, 1]) {
+                5 => {
+                    // `lit**/name`: git lets this `**` cross directories (recorded deviation class)
+                    c.label("pat-doublestar-after-literal");
+                    let keep = t.range(1, comps[0].len().max(1)).min(comps[0].len());
+                    escape_for_pattern(&comps[0][..keep], &mut pat, true);
+                    if pat.ends_with(b"\\ ") {
+                        pat.truncate(pat.len() - 2);
+                        pat.push(b'x');
+                    }
+                    pat.extend_from_slice(b"**/");
+                    escape_for_pattern(base_name, &mut pat, false);
+                }
                 0 => {
                     pat.extend_from_slice(b"**/");
                     escape_for_pattern(base_name, &mut pat, false);
@@ -491,6 +503,18 @@ impl Decision {
     }
 }
 
+/// `lit**...`: the first wildcard of the pattern is a `**` that follows a non-slash literal. git compares the literal
+/// prefix separately and hands only the rest to wildmatch, where the `**` is then at the start of the pattern and may
+/// match across directories; gitoxide matches the whole pattern, where it is an ordinary `*`.
+fn doublestar_after_literal_prefix(pat: &[u8]) -> bool {
+    let pat = pat.strip_prefix(b"!").unwrap_or(pat);
+    let pat = pat.strip_prefix(b"/").unwrap_or(pat);
+    match pat.iter().position(|b| matches!(b, b'*' | b'?' | b'[' | b'\\')) {
+        Some(n) if n > 0 => pat[n - 1] != b'/' && pat[n..].starts_with(b"**"),
+        _ => false,
+    }
+}
+
 fn git_decisions(b: &Built, queries: &[Vec<u8>]) -> Result<Vec<Decision>, String> {
     let mut input = Vec::new();
     for q in queries {
@@ -658,6 +682,13 @@ fn main() {
                 })
             });
             c.label_if(world_has_blank_only_pattern, "blank-only-pattern-line");
+            // a pattern of the form `lit**...` (see doublestar_after_literal_prefix): otherwise unexplained disagreements in
+            // such a world are attributed to it
+            let world_has_dstar_pattern = spec.ignore_files.iter().any(|(_, content)| {
+                content
+                    .lines()
+                    .any(|l| !l.starts_with(b"#") && doublestar_after_literal_prefix(l))
+            });
             let mut sources = std::collections::BTreeSet::new();
             let mut any_negative = false;
             let mut n_ignored = 0usize;
@@ -795,7 +826,11 @@ fn main() {
                 // git stops at the topmost excluded directory and answers with the pattern that excluded it
                 let topmost_excluded_dir = ancestors.iter().find(|d| d.ignored());
                 let git_follows_topmost_dir = topmost_excluded_dir.map_or(false, |d| d.by == g.by);
-                let sig: &'static str = if root_is_matched {
+                let dstar_decides = doublestar_after_literal_prefix(&g.raw)
+                    || m.as_ref().map_or(false, |m| doublestar_after_literal_prefix(m.pattern.to_string().as_bytes()));
+                let sig: &'static str = if dstar_decides {
+                    "doublestar-after-literal-prefix"
+                } else if root_is_matched {
                     "worktree-root-matched-by-global-pattern"
                 } else if git_follows_topmost_dir && ours.ignored() {
                     // gitoxide answers with the match of a deeper directory: same verdict, other pattern
@@ -809,6 +844,8 @@ fn main() {
                 {
                     // nothing matches the path; gitoxide reports the negated pattern that matched a leading directory
                     "negated-dir-pattern-reported-for-children"
+                } else if world_has_dstar_pattern {
+                    "doublestar-after-literal-prefix"
                 } else if world_has_blank_only_pattern {
                     // a pattern made of blanks only (a TAB: trailing TABs are not trimmed) is dropped by gix_glob::parse;
                     // git matches a file of that name
@@ -830,6 +867,7 @@ fn main() {
                         "whitespace-only-pattern-dropped" => "tolerated:whitespace-only-pattern-dropped",
                         "excluded-dir-deeper-match-reported" => "tolerated:excluded-dir-deeper-match-reported",
                         "excluded-dir-reincluded-below" => "tolerated:excluded-dir-reincluded-below",
+                        "doublestar-after-literal-prefix" => "tolerated:doublestar-after-literal-prefix",
                         _ => "tolerated:negated-dir-pattern-reported-for-children",
                     });
                 }
